@@ -253,16 +253,18 @@ class C12(Profile):
             src = src + comp
             comp = []
         added = []
+        failed = None
         try:
-            for s in sources:
-                for f in src:
-                    if f not in s.filters._filters:
-                        s.filters.add(f)
-                        added.append((s.filters, f))
-            for f in comp:
-                if f not in sw.cds.filters._filters:
-                    sw.cds.filters.add(f)
-                    added.append((sw.cds.filters, f))
+            for fset, fl in [(s.filters, src) for s in sources] + [(sw.cds.filters, comp)]:
+                for f in fl:
+                    if f not in list(fset):
+                        a = call(fset.add, f)
+                        added.append((fset, f))
+                        # a filter set holds what was added to it, whatever was added and removed before (history-dependent state)
+                        if not a.ok or f not in list(fset):
+                            failed = Violation('attach', 'C12.attach/added-filter-not-in-set',
+                                               dict(filter=repr(f), outcome=a.tag, held=[repr(x) for x in fset][:6]))
+                            raise failed
             target = {'M': sw.M, 'F': sw.F, 'C': sw.cds}[facade]
             if what == 'query':
                 return call(target.query, list(arg))
@@ -270,8 +272,10 @@ class C12(Profile):
                 return call(target.get, sid)
             return call(target.all_versions, sid)
         finally:
-            for fs, f in added:
-                fs.remove(f)
+            for fset, f in added:
+                r = call(fset.remove, f)
+                if failed is None and (not r.ok or f in list(fset)):
+                    raise Violation('attach', 'C12.detach/removed-filter-still-in-set', dict(filter=repr(f), outcome=r.tag))
 
     def op_query(self, sw, world, op):
         fs = op['filters']
